@@ -32,6 +32,10 @@ namespace mfuse::ConstStrings
 /** The maximum number of thread execution depth. */
 constexpr unsigned int MAX_STACK_DEPTH_DEFAULT = 20;
 
+#ifdef MORFUSE_VERIF
+void (*mfuse::verif::vm_probe)(const ScriptVM* vm, intptr_t offset, uintptr_t stackIndex, size_t stackSize, bool marked) = nullptr;
+#endif
+
 thread_local size_t ScriptExecutionStack::stackDepth = 0;
 thread_local size_t ScriptExecutionStack::maxStackDepth = MAX_STACK_DEPTH_DEFAULT;
 
